@@ -810,6 +810,20 @@ def secret_types():
     return out
 
 
+def holders_of(ty):
+    """names of the structs under src/ with a field whose type mentions `ty`"""
+    out = []
+    for root, _, files in os.walk(os.path.join(REPO, "src")):
+        for fn in sorted(files):
+            if not fn.endswith(".rs") or fn == "tests.rs":
+                continue
+            clean = blank_comments_and_strings(read(os.path.join(root, fn)))
+            for m in re.finditer(r"\bstruct\s+(\w+)[^{;(]*\{([^}]*)\}", clean):
+                if re.search(r"\b%s\b" % ty, m.group(2)):
+                    out.append(m.group(1))
+    return sorted(set(out))
+
+
 def _c10(pid, tier, log):
     types = secret_types()
     if not types:
@@ -879,6 +893,19 @@ def _c10(pid, tier, log):
         default.append(Probe("c10-clone-" + st, fill(template("c10_clone.rs"), NAME="c10-clone-" + st, T=twin_t), "pos",
                              {"E0599", "E0277", "E0308"}, "%s.clone() is accepted (twin of the verifier probe)" % twin_t,
                              meta={"family": "clone-twin"}))
+    # ... nor through a value that HOLDS it: the code-exchange request (the only library type with a verifier field) must not
+    # be Clone either — a copy of the request is a copy of the verifier, which could then be sent twice
+    holders = holders_of(NOT_CLONE)
+    if NOT_CLONE in names:
+        default.append(Probe("c10-holder-clone-code-token-request",
+                             fill(template("c10_holder_clone.rs"), NAME="c10-holder-clone-code-token-request", SUBJECT="&request",
+                                  WHAT="a CodeTokenRequest (it holds the PKCE verifier) must not be Clone"), "neg",
+                             {"E0277", "E0599"}, "CodeTokenRequest: Clone must be rejected: cloning the request would duplicate the verifier",
+                             twins=["c10-holder-clone-twin-client"], meta={"family": "holder-clone", "holders_found": holders}))
+        default.append(Probe("c10-holder-clone-twin-client",
+                             fill(template("c10_holder_clone.rs"), NAME="c10-holder-clone-twin-client", SUBJECT="client",
+                                  WHAT="twin: the same assertion on the client (which is Clone) is accepted"), "pos",
+                             {"E0277", "E0599"}, "Client: Clone is accepted (twin of the holder probe)", meta={"family": "holder-clone-twin"}))
     # the same negative facts must hold with EVERY optional feature switched on (a cfg-gated derive such as
     # `cfg_attr(feature = "pkce-plain", derive(Clone))` is invisible to the default-feature crate)
     allfeat = []
